@@ -33,6 +33,48 @@ def items_of(ev):
     return [e for e in ev if (e.kind == 'emit' and e.ctor != 'asm.Metadata') or e.kind in ('sub', 'splice')]
 
 
+def _compound_width(repo, chk):
+    """`x op= e` is `x = x op e` computed at word width and narrowed once, at the store.  The typechecked statement must
+    therefore keep e as evaluated - not coerced to the (possibly narrower) type of x: `b /= 256` with a byte b divides by
+    256, not by 0; `b %= 300` is b % 300, not b % 44."""
+    chk.rule('C09.M6', 'compound assignment: the right-hand side keeps its own width (it is not narrowed to the target type before the '
+                       'operation); the operation is the one of the plain operator')
+    it = Interp(repo)
+    ns = it.load('hidc/ast/__init__.py')
+    lex = it.load('hidc/lexer/__init__.py')
+    span = lex['Span'](lex['Cursor'](0, 0), lex['Cursor'](0, 1))
+    cur = lex['Cursor'](0, 1)
+    DT, IV, VL, Var = ns['DataType'], ns['IntValue'], ns['VariableLookup'], ns['Variable']
+    AT = ns['ArrayType']
+    env = ns['Environment'].empty().new_child(DT.EMPTY)
+    targets = [('byte variable', VL(Var('b', DT.BYTE, False), span)),
+               ('int variable', VL(Var('i', DT.INT, False), span)),
+               ('byte[] element', ns['ArrayLookup'](VL(Var('a', AT(DT.BYTE, False), False), span), IV(0, span), cur)),
+               ('int[] element', ns['ArrayLookup'](VL(Var('w', AT(DT.INT, False), False), span), IV(0, span), cur))]
+    n = 0
+    for label, tgt in targets:
+        for opname in ('Add', 'Sub', 'Mul', 'Div', 'Mod'):
+            for v in (1, 255, 256, 300, 512, 65535, 65536):
+                try:
+                    st = ns['IncAssignment'](tgt, IV(v, span), ns[opname], span).evaluate(env)
+                except ns['TypeCheckError'] as e:
+                    chk.fail('C09.M6', f'{label} {opname}= {v}', f'rejected: {e}', 'hidc/ast/statements.py')
+                    continue
+                n += 1
+                rhs = st.expr
+                data = getattr(rhs, 'data', None)
+                byte_target = tgt.type == DT.BYTE
+                # + - * commute with reduction modulo 256, so for a byte target an operand already reduced is the same
+                # computation; / and % do not
+                same = data == v or (byte_target and opname in ('Add', 'Sub', 'Mul') and isinstance(data, int) and (data - v) % 256 == 0)
+                ok = type(st).__name__ == 'IncAssignment' and st.bin_op is ns[opname] and same
+                if not ok:
+                    chk.fail('C09.M6', f'{label} {opname}= {v}', f'typechecked right-hand side is {type(rhs).__name__}({getattr(rhs, "data", "?")}) '
+                             f'with operator {getattr(st.bin_op, "__name__", st.bin_op)}: the operand must stay the int {v}', 'hidc/ast/statements.py')
+        chk.ok('C09.M6', f'{label}', 'operand kept at its own width for + - * / % and values up to 65536')
+    chk.floor('compound assignment evaluations', n, 100)
+
+
 def _describe(gf, ev, em):
     """(constructor kind, operand texts) of each emission - the class an emission constructs, however it is spelled
     (literal class, table lookup, helper parameter bound to a class)."""
@@ -573,4 +615,5 @@ def run(repo, chk):
     pats = [src(c.pattern) for c in m[0].cases] if m else []
     chk.expect('ast.Unary()' in pats and 'ast.BooleanOp()' in pats and pats.index('ast.Unary()') < pats.index('ast.BooleanOp()'),
                'C09.M5', 'eval_expr arm order', '`not` as a value must take the unary arm (1 - x)', GEN)
+    _compound_width(repo, chk)
     chk.not_decided = ['arithmetic of the VM at boundary values (wrap-around, signed compare, truncation)']
